@@ -1363,6 +1363,23 @@ pub struct JsObject {
     pub private_fields: Option<FxHashMap<PrivateFieldKey, JsValue>>,
 }
 
+/// Would making `proto` the prototype of `obj` close a cycle in the prototype chain?
+/// (OrdinarySetPrototypeOf: walk up from `proto`; the walk stops at a proxy.)
+pub fn prototype_would_cycle(obj: &JsObjectRef, proto: &JsObjectRef) -> bool {
+    let mut current = Some(proto.clone());
+    while let Some(p) = current {
+        if Gc::ptr_eq(&p, obj) {
+            return true;
+        }
+        let p_ref = p.borrow();
+        if matches!(p_ref.exotic, ExoticObject::Proxy(_)) {
+            return false;
+        }
+        current = p_ref.prototype.clone();
+    }
+    false
+}
+
 impl JsObject {
     /// Create a new ordinary object
     pub fn new() -> Self {
